@@ -22,7 +22,7 @@ def _one(L):
     for i in range(pad):
         exp[L + i] = [0] * 8
     ws = bpa.analyse(ctx.mod, FN, lambda: ([Ptr(FC.PDU, 0), L], {FC.PDU: Region(FC.PDU, 'sym', total)}),
-                     max_worlds=16, gcache=ctx.gcache)
+                     max_worlds=16, max_steps=60000, gcache=ctx.gcache)
     where = FC.fnloc(ctx, FN)
     key = 'Vss:pad:L%d' % L
     oks, err = FC.ok_worlds(ws)
